@@ -45,9 +45,10 @@ PARTIAL = [
     "simple_repeats is proved for all r over the chain segment tables (2^r paths, maximal/minimal, termination with fuel 2n+1); that add_segments "
     "builds exactly these tables is proved by evaluation for all layouts of up to 4 sections on a grid (simple_repeats_layout_partial) and compared "
     "on every generated layout, not proved for symbolic boundary times",
-    "voltas: finite table (k <= 3 brackets carrying one or two numbers, with/without music before and after), evaluated through mkSegments and "
-    "getPaths (voltas_upto3_partial); no theorem for k > 3 or symbolic times",
-    "termination of the enumeration is proved for the chain family only; for arbitrary tables only fuel-monotonicity (a result never depends on "
+    "voltas is proved for every k over the segment tables of a repeat with k single-number brackets (maximal = section+ending i on pass i, "
+    "minimal = section+last ending, fuel 2k+4); that add_segments builds these tables is proved by evaluation for k <= 3 on a grid "
+    "(voltas_layout_partial); brackets carrying two numbers are covered by the finite table voltas_upto3_partial (k <= 3) and the correspondence",
+    "termination of the enumeration is proved for the chain and volta families only; for arbitrary tables only fuel-monotonicity (a result never depends on "
     "the fuel) is proved - the code itself recurses without bound on tables with a forced backward jump",
     "ids_suffixed_partial: the suffix is the rank among same-id notes by onset; that this rank is the visit number of the note's segment is "
     "compared and checked by the oracle, not proved",
@@ -966,8 +967,8 @@ def _evaluate(desc):
             def content(p, shift):
                 rows = []
                 for o in ordered_objects(p):
-                    if kind_code(o) in (16, 17):
-                        continue
+                    if kind_code(o) in (15, 16, 17):
+                        continue  # pages, systems and (pre-registered) segments are never copied
                     if p is part and o.start.t >= L["last"] and not (kind_code(o) == 30 and payload(o) == [1]):
                         continue  # objects at the final time point belong to no segment (reading at the top)
                     rows.append((None if o.start is None else o.start.t - shift, None if o.end is None else o.end.t - shift, type(o).__name__,
